@@ -240,7 +240,47 @@ def impl_parse(cls, ident, data):
     return [0] + enc_elem(e)
 
 
-def run_fetch(case, choose=None):
+def _ref_by_id(table, i):
+    """Toc.get_element_by_id as a function of the CURRENT table only: first element in iteration order"""
+    for g in table:
+        for n in table[g]:
+            if table[g][n].ident == i:
+                return table[g][n]
+    return None
+
+
+def probe_lookups(holder, hints=(), step=0):
+    """The model's Toc is a value: every lookup is a function of the table as it is now (that is what
+    C03_lookup_agree talks about).  Check it on the real object: by id, by (group, name) and by complete name
+    must equal the reference computed from holder.toc.  Performing the lookups is also what exposes any
+    history kept inside the object.  Returns a description of the first difference or None."""
+    table = holder.toc
+    if not isinstance(table, dict) or not all(isinstance(d, dict) for d in table.values()):
+        return None
+    keys = [(g, n) for g in table for n in table[g]]
+    ids = [-1, 0, 1, len(keys) - 1, len(keys)] + [h for h in hints if isinstance(h, int)]
+    if keys:
+        ids += [getattr(table[g][n], 'ident', None) for g, n in (keys[0], keys[-1], keys[(7 * step + 3) % len(keys)])]
+    try:
+        for i in ids:
+            got, want = holder.get_element_by_id(i), _ref_by_id(table, i)
+            if got is not want:
+                return 'get_element_by_id(%r) returns %s, the table says %s' % (
+                    i, None if got is None else (got.group, got.name), None if want is None else (want.group, want.name))
+        for g, n in (keys[:1] + keys[-1:] + [keys[(5 * step + 1) % len(keys)]] if keys else []) + [('no such', 'entry')]:
+            want = table.get(g, {}).get(n)
+            if holder.get_element(g, n) is not want:
+                return 'get_element(%r, %r) differs from the table' % (g, n)
+            if '.' not in g and '.' not in n:
+                want2 = None if want is None else _ref_by_id(table, want.ident)
+                if holder.get_element_by_complete_name(g + '.' + n) is not want2:
+                    return 'get_element_by_complete_name(%r) differs from the table' % (g + '.' + n)
+    except Exception as e:  # noqa
+        return 'lookup raised %s: %s' % (type(e).__name__, e)
+    return None
+
+
+def run_fetch(case, choose=None, probe='none', holder=None):
     """Drive the real TocFetcher.  case: cls, ver, raw (items), crc, extra, cache (toc-as-lists or None),
     evs (list) or, when `choose` is given, the events are chosen adaptively by choose(n_sent) and recorded.
     Returns (encoded observation, info dict)."""
@@ -252,11 +292,24 @@ def run_fetch(case, choose=None):
     dev = fk.PyDev(case['raw'], case['crc'], bytes(case['extra']))
     trace = []
     cf = fk.FakeCF(ver, trace)
-    holder = Toc()
+    holder = Toc() if holder is None else holder
     cache = StubCache(trace, {case['crc']: case['cache']} if case.get('cache') is not None else {})
     f = TocFetcher(cf, LogTocElement if cls == 'log' else ParamTocElement, port, holder,
                    lambda: trace.append(('fin',)), cache)
+    probe_fail = []
+    nprobe = [0]
+
+    def do_probe(where):
+        # probe: 'none' | 'start' (only before the INFO reply) | 'all' (after start and after every event)
+        if probe == 'all' or (probe == 'start' and where == 'start'):
+            nprobe[0] += 1
+            bad = probe_lookups(holder, hints=(f.requested_index,), step=nprobe[0])
+            if bad and not probe_fail:
+                probe_fail.append('%s (%s)' % (bad, where))
+    if probe == 'start':
+        probe_lookups(holder)               # lookups on the still empty table, before anything is fetched
     f.start()
+    do_probe('start')
     evs = []
     k = 0
     while True:
@@ -279,11 +332,13 @@ def run_fetch(case, choose=None):
                     cf.deliver(port, 0, r)
         else:
             cf.deliver(port, ev[1], bytes(ev[2]))
+        do_probe('after event %d %r' % (len(evs) - 1, ev[:2]))
     st = {None: 0, 'GET_TOC_INFO': 1, 'GET_TOC_ELEMENT': 2}.get(f.state, 9)
     obs = [1 if cf.registered(f._new_packet_cb) else 0, st, _b(f._useV2),
            -1 if f.requested_index is None else f.requested_index,
            -1 if f.nbr_of_items is None else f.nbr_of_items, f._crc] + enc_toc(holder.toc) + enc_trace(trace, port)
-    info = {'evs': evs, 'trace': trace, 'toc': holder, 'fetcher': f, 'cf': cf, 'port': port}
+    info = {'evs': evs, 'trace': trace, 'toc': holder, 'fetcher': f, 'cf': cf, 'port': port,
+            'probe_fail': probe_fail[0] if probe_fail else None, 'probes': nprobe[0]}
     return obs, info
 
 
@@ -504,7 +559,13 @@ def tie(ctx):
     terms, exp, kept = [], [], []
     for case in fcs:
         ch = adversary(ctx.rng, len(case['raw']), case['mode'])
-        obs, info = run_fetch(case, choose=ch)
+        case['probe'] = ctx.rng.choice(['all', 'all', 'start', 'none']) if len(case['raw']) <= 300 else 'start'
+        obs, info = run_fetch(case, choose=ch, probe=case['probe'])
+        dist['lookup_probes_during_fetch'] = dist.get('lookup_probes_during_fetch', 0) + info['probes']
+        if info['probe_fail'] and sum(1 for d in dis if d['what'].startswith('Toc lookups depend')) < 2:
+            dis.append({'what': 'Toc lookups depend on the history, not only on the current table (the model\'s Toc is a value)',
+                        'detail': info['probe_fail'], 'cls': case['cls'], 'ver': case['ver'], 'n': len(case['raw']),
+                        'cache': case['cache'] is not None, 'probe': case['probe'], 'events': [list(e[:2]) for e in info['evs']][:40]})
         case['evs'] = [list(e[:2]) + ([list(e[2])] if len(e) > 2 else []) for e in info['evs']]
         terms.append(model_fetch_term(case, info['evs']))
         exp.append(obs)
@@ -860,8 +921,8 @@ def _check_table(cls, items, toc, ids=None, pers=None):
     return None
 
 
-def oracle_fetch_case(case):
-    """case: cls, ver, items (json), crc, extra, cachekind, evs.  The adversarial events are followed by an honest
+def oracle_fetch_case(case, holder=None):
+    """case: cls, ver, items (json), crc, extra, cachekind, evs, probe.  The adversarial events are followed by an honest
     completion; then the property text is checked.  Returns failure dict or None."""
     items = [ditem_unjson(d) for d in case['items']]
     cls = case['cls']
@@ -894,7 +955,7 @@ def oracle_fetch_case(case):
     def choose2(n_sent, f):
         f_trace[0] = f.cf.trace
         return choose(n_sent, f)
-    obs, info = run_fetch(c, choose=choose2)
+    obs, info = run_fetch(c, choose=choose2, probe=case.get('probe', 'none'), holder=holder)
     tr = info['trace']
     exc = [t for t in tr if t[0] == 'raised']
     fins = sum(1 for t in tr if t == ('fin',))
@@ -907,9 +968,14 @@ def oracle_fetch_case(case):
         return fail('toc_fetch_raises', 'callback raised %s' % (exc[0][1:],), 'no exception', exc[0][1])
     if fins != 1:
         return fail('toc_fetch_not_completed_once', 'finished callback called %d times after all requests were answered' % fins, 1, fins)
+    if info['probe_fail']:
+        return fail('toc_lookup_not_a_function_of_the_table', info['probe_fail'], 'lookups answer from the current table', info['probe_fail'])
     bad = check_table(cls, items, info['toc'])
     if bad:
-        k = 'cached_table_of_other_class_installed' if ck == 'other_class' else 'downloaded_table_differs'
+        if bad.startswith('get_element') or bad.startswith('lookup'):
+            k = 'lookups_disagree_after_fetch'
+        else:
+            k = 'cached_table_of_other_class_installed' if ck == 'other_class' else 'downloaded_table_differs'
         return fail(k, bad, 'device table', bad)
     sent = [t for t in tr if t[0] == 'send']
     if ck == 'same' and n > 0:
@@ -995,7 +1061,14 @@ def _mk_oracle_cases(ctx, deep):
                 ns += 1
             evs.append(list(ev[:2]) + ([list(ev[2])] if len(ev) > 2 else []))
         out.append({'kind': 'fetch', 'cls': cls, 'ver': ver, 'items': [ditem_json(i) for i in items],
-                    'crc': rng.getrandbits(32), 'extra': list(rng.choice([b'', b'\x10\x10'])), 'cachekind': ck, 'evs': evs})
+                    'crc': rng.getrandbits(32), 'extra': list(rng.choice([b'', b'\x10\x10'])), 'cachekind': ck, 'evs': evs,
+                    'probe': rng.choice(['none', 'start', 'all', 'all']) if n <= 20 else rng.choice(['none', 'start'])})
+    # two fetches into the same Toc object (download then cache hit, cache hit then download, ...)
+    fetches = [c for c in out if c['kind'] == 'fetch' and len(c['items']) <= 20 and c['cachekind'] != 'other_class']
+    for _ in range(ctx.scale(30, 300)):
+        a, b = rng.choice(fetches), rng.choice(fetches)
+        if a['cls'] == b['cls']:
+            out.append({'kind': 'refetch', 'first': a, 'second': b})
     for _ in range(ctx.scale(25, 250) * (3 if deep else 1)):
         c = gen_ext_case(rng)
         ch = ext_adversary(rng, len(c['xdev']), 'dup')
@@ -1009,10 +1082,27 @@ def _mk_oracle_cases(ctx, deep):
     return out
 
 
+def oracle_refetch_case(case):
+    """two fetches into the SAME Toc object: first, then (after Toc.clear() when the second one downloads) second"""
+    from cflib.crazyflie.toc import Toc
+    holder = Toc()
+    f = oracle_fetch_case(dict(case['first'], kind='fetch'), holder=holder)
+    if f:
+        return dict(f, case=case)
+    if case['second'].get('cachekind') != 'same' or not case['second']['items']:
+        holder.clear()
+    f = oracle_fetch_case(dict(case['second'], kind='fetch'), holder=holder)
+    if f:
+        return dict(f, case=case, detail='second fetch into the same Toc: ' + str(f.get('detail')))
+    return None
+
+
 def _run_oracle_case(case):
     try:
         if case.get('kind') == 'ext':
             return oracle_ext_case(case)
+        if case.get('kind') == 'refetch':
+            return oracle_refetch_case(case)
         return oracle_fetch_case(case)
     except Exception as e:  # noqa
         import traceback
